@@ -303,9 +303,12 @@ def configs_for(rng, par, all_subsets, n_subsets, n_user, gid):
     # GraphGenerationParams(adapter, rules_for_constraint=<list | tuple | argument omitted>) (flag off only)
     full = []
     for kind, ad, rf, rules in out:
-        via = 'direct'
+        # round 8: the rule collection need not be a list / tuple -- a dict values view (rules kept by name) or a
+        # numpy object array denote the same abstract rule list (the model is fed the materialised list)
+        via = rng.choice(['direct', 'direct', 'direct', 'direct-values', 'direct-ndarray'])
         if not rf:
-            via = rng.choice(['direct', 'direct', 'params-list', 'params-tuple'] +
+            via = rng.choice(['direct', 'direct', 'params-list', 'params-tuple', 'direct-values', 'direct-ndarray',
+                              'params-values', 'params-ndarray'] +
                              (['params-default', 'params-default'] if rules == 'DEFAULT' else []))
         full.append((kind, ad, rf, rules, via))
     full = [c + ('none',) for c in full]
@@ -323,7 +326,8 @@ def configs_for(rng, par, all_subsets, n_subsets, n_user, gid):
             rules = [r if r[0] == 'b' else [r[0], r[1], r[2], 'picklable'] for r in rules]
         full.append(('adapter-variant', ad, rng.random() < 0.4, rules, 'direct', travel))
     # the boundary value: an explicitly EMPTY rule collection
-    for via in (['params-list', 'params-tuple', 'direct'] if all_subsets else [['params-list', 'params-tuple'][gid % 2]]):
+    for via in (['params-list', 'params-tuple', 'direct', 'direct-values', 'params-values', 'direct-ndarray']
+                if all_subsets else [['params-list', 'params-tuple', 'direct-values', 'params-ndarray'][gid % 4]]):
         full.append(('no-rules', rng.choice(ads), False, [], via, 'none'))
     return full
 
@@ -539,6 +543,24 @@ def golem_logging_at_debug(on):
         logging.disable(prev_disable)
 
 
+def as_collection(real, via):
+    """the same rules, in the same order, held in another kind of collection"""
+    how = via.split('-', 1)[1]
+    if how == 'list':
+        return list(real)
+    if how == 'tuple':
+        return tuple(real)
+    if how == 'values':
+        return {'rule_%d' % i: f for i, f in enumerate(real)}.values()
+    if how == 'ndarray':
+        import numpy as np
+        arr = np.empty(len(real), dtype=object)
+        for i, f in enumerate(real):
+            arr[i] = f
+        return arr
+    raise ValueError(via)
+
+
 class Session:
     """ONE GraphVerifier instance (one adapter instance, one list of rule objects) that can be called on
     several graphs; close() unregisters the native user rules"""
@@ -567,6 +589,8 @@ class Session:
             adapter = deepcopy(adapter)
         if via == 'direct':
             self.verifier = GraphVerifier(real, adapter=adapter, raise_on_failure=raise_flag)
+        elif via.startswith('direct-'):
+            self.verifier = GraphVerifier(as_collection(real, via), adapter=adapter, raise_on_failure=raise_flag)
         else:
             # the standard way to configure the verifier of an optimiser
             from golem.core.optimisers.optimizer import GraphGenerationParams
@@ -575,8 +599,7 @@ class Session:
                 assert rules == 'DEFAULT'
                 params = GraphGenerationParams(adapter=adapter)
             else:
-                params = GraphGenerationParams(adapter=adapter,
-                                               rules_for_constraint=list(real) if via == 'params-list' else tuple(real))
+                params = GraphGenerationParams(adapter=adapter, rules_for_constraint=as_collection(real, via))
             self.verifier = params.verifier
 
     def travel(self, how):
